@@ -122,6 +122,8 @@ func (nm *namer) Lisp(f *Form) string {
 		return fmt.Sprintf("(setq v%d (+ v%d 1))", f.N, f.N)
 	case "Lt":
 		return fmt.Sprintf("(< v%d %d)", f.N, f.Z)
+	case "Setv":
+		return fmt.Sprintf("(setq v%d %d)", f.N, f.Z)
 	case "CallList":
 		return "(list" + nm.forms(f.A) + ")"
 	case "Progn":
@@ -233,6 +235,8 @@ func Gallina(f *Form) string {
 		return fmt.Sprintf("(Incf %d)", f.N)
 	case "Lt":
 		return fmt.Sprintf("(Lt %d (%d)%%Z)", f.N, f.Z)
+	case "Setv":
+		return fmt.Sprintf("(Setv %d (%d)%%Z)", f.N, f.Z)
 	case "CallList", "Progn", "IgnoreErrors", "Lam":
 		return "(" + f.K + " " + gForms(f.A) + ")"
 	case "When":
